@@ -237,8 +237,35 @@ def term_rule(prog, R, rid, floor=4):
                 r.broke("%s: %s advanced more than once per iteration" % (f.name, idx))
                 continue
             wb, wi, wel = iw[0]
-            if not (wb.id == b.id and wi > i) and not _every_path_to_header_passes(f, b, i, h, body, lambda e2: False) is False:
-                pass
+            # dense output, second form: the index advances only in rounds that stored an element.  From the loop header, the ++ is reachable only
+            # through a store to field[idx]; otherwise a skipped input leaves a NULL hole in the middle of the list.
+            def _is_store(e2, ftxt=ftxt, idx=idx):
+                if e2["k"] != "asg" or e2["e"]["op"] != "=":
+                    return False
+                l2 = strip(e2["e"]["l"])
+                return l2 is not None and l2.get("k") == "idx" and render(strip(l2["b"])) == ftxt and is_var(strip(l2["i"]), idx) and not is_null(e2["e"].get("r"))
+            seenb, workb, gap = set(), [(h, 0)], False
+            while workb and not gap:
+                bid2, st2 = workb.pop()
+                blk2 = f.blocks[bid2]
+                stop = False
+                for j2 in range(st2, len(blk2.els)):
+                    if _is_store(blk2.els[j2]):
+                        stop = True
+                        break
+                    if bid2 == wb.id and j2 == wi:
+                        gap = True
+                        break
+                if stop or gap:
+                    continue
+                for s2 in f.succ(bid2):
+                    if s2 in body and s2 != h and s2 not in seenb:
+                        seenb.add(s2)
+                        workb.append((s2, 0))
+            if gap:
+                r.viol("fn=%s %s filled densely" % (f.name, ftxt), f.name, f.loc(wel), "the index '%s' is advanced in rounds that store nothing (a skipped input element still moves it on): the skipped positions stay NULL, so the list "
+                       "ends at the first gap for every consumer, the free function leaks what lies behind it, and with enough skipped elements a later store lands past the allocation" % idx)
+                continue
             init_w = [w for w in _writes(f, idx) if w[0].id not in body]
             # A: counted loop
             hbr = f.branch(h)
